@@ -49,6 +49,19 @@ Definition w_url_tail : list N := enc_hdr n_url 16 ++ [0;0;0;0] ++ [97; 0; 98; 9
 Lemma url_tail_refuted : refutes w_url_tail [(n_url, RSizeBig)].
 Proof. refute w_url_tail. Qed.
 
+(* senc with sample_count 0: Size() is the remembered box size, the data is not written back (20 announced, 16 written) *)
+Definition w_senc_zero : list N := enc_hdr n_senc 20 ++ [0;0;0;0] ++ [0;0;0;0] ++ [1;2;3;4].
+Lemma senc_zero_refuted : refutes w_senc_zero [(n_senc, RGuard)].
+Proof. refute w_senc_zero. Qed.
+(* finding C01-F5 (repaired by repo commit b8f1424): senc, large-size header, sub-sample flag, one sample, no data *)
+Definition w_senc_large : list N := enc_hdr_large n_senc 24 ++ [0;0;0;2] ++ [0;0;0;1].
+Lemma senc_large_fixed : decode w_senc_large = Err.
+Proof. vm_compute. reflexivity. Qed.
+(* elng with a short payload and no terminator: accepted (the read error is dropped), rewritten as the empty language *)
+Definition w_elng_unterminated : list N := enc_hdr n_elng 11 ++ [97;98;99].
+Lemma elng_unterminated_refuted : refutes w_elng_unterminated [(n_elng, RSizeBig); (n_elng, RRsv false 0)].
+Proof. refute w_elng_unterminated. Qed.
+
 (* finding C01-F4 (repaired by repo commit cc4ccf6): an stsd with a large-size header and no body is rejected *)
 Definition w_stsd_nobody : list N := enc_hdr_large n_stsd 16.
 Lemma stsd_nobody_fixed : decode w_stsd_nobody = Err.
